@@ -28,55 +28,48 @@ theorem Good.send_backendErr {m0 : View} {st0 : Nat} {wc : WC} (h : Good m0 st0 
 
 /-! ### finishResync -/
 
-theorem send_status_ne_wait (wc : WC) :
-    (if wc.status = stWait then wc.send (.status stResync) else wc).status ≠ stWait := by
-  split
+theorem leaveWait_good {m0 : View} {st0 : Nat} {wc : WC} (h : Inv m0 st0 wc) : Inv m0 st0 wc.leaveWait := by
+  unfold WC.leaveWait; split
+  · exact h.send_status _
+  · exact h
+
+theorem leaveWait_status (wc : WC) : wc.leaveWait.status ≠ stWait := by
+  unfold WC.leaveWait; split
   · rw [send_status']; decide
   · assumption
 
-structure FinishOK (m0 : View) (st0 : Nat) (wc w : WC) : Prop where
-  inv : Inv m0 st0 w
-  idle : w.old = none
-  status : w.status = stInSync
-  /-- everything still in `oldResources` is swept (deleted), the rest is kept -/
-  view : ∀ k, view w k = if oldLookup wc k ≠ none then none else view wc k
-  mode : w.procMode = wc.procMode
-  rev : w.rev = wc.rev
+theorem leaveWait_res (wc : WC) : wc.leaveWait.res = wc.res := by
+  unfold WC.leaveWait; split
+  · exact send_res _ _
+  · rfl
 
-theorem finishResync_ok {m0 : View} {st0 : Nat} {wc : WC} (h : Inv m0 st0 wc) :
-    FinishOK m0 st0 wc wc.finishResync := by
-  -- step 1: leave WaitForDatastore
-  have h1 : Inv m0 st0 (if wc.status = stWait then wc.send (.status stResync) else wc) := by
-    split
-    · exact h.send_status _
-    · exact h
-  have hs1 := send_status_ne_wait wc
-  have r1 : (if wc.status = stWait then wc.send (.status stResync) else wc).res = wc.res := by
-    split
-    · exact send_res _ _
-    · rfl
-  have o1 : (if wc.status = stWait then wc.send (.status stResync) else wc).old = wc.old := by
-    split
-    · exact send_old' _ _
-    · rfl
-  have p1 : (if wc.status = stWait then wc.send (.status stResync) else wc).procMode = wc.procMode := by
-    split
-    · exact send_procMode _ _
-    · rfl
-  have rv1 : (if wc.status = stWait then wc.send (.status stResync) else wc).rev = wc.rev := by
-    split
-    · simp only [WC.send]; split <;> rfl
-    · rfl
-  generalize (if wc.status = stWait then wc.send (.status stResync) else wc) = w1 at h1 hs1 r1 o1 p1 rv1
-  have hol : ∀ k, oldLookup w1 k = oldLookup wc k := fun k => by simp [oldLookup, o1]
-  have hvw : ∀ k, view w1 k = view wc k := fun k => by simp [view, r1, hol]
-  -- step 2+3: sweep and clear oldResources; the state before the final InSync
-  have key : ∀ (w2 : WC), w2.res = w1.res → w2.old = none → w2.status = w1.status →
-      (∃ ks : List Nat, w2.out = w1.out ++ (if ks.isEmpty then [] else [Res.updates (ks.map delUpd)]) ∧
-        ∀ k, k ∈ ks ↔ oldLookup w1 k ≠ none) → Inv m0 st0 w2 := by
-    intro w2 hr ho hst ⟨ks, hout, hks⟩
-    have e : downFrom m0 w1.out = view w1 := funext h1.mirror
-    have hdown : ∀ k, downFrom m0 w2.out k = if k ∈ ks then none else view w1 k := by
+theorem leaveWait_old (wc : WC) : wc.leaveWait.old = wc.old := by
+  unfold WC.leaveWait; split
+  · exact send_old' _ _
+  · rfl
+
+theorem leaveWait_mode (wc : WC) : wc.leaveWait.procMode = wc.procMode := by
+  unfold WC.leaveWait; split
+  · exact send_procMode _ _
+  · rfl
+
+theorem leaveWait_view (wc : WC) (k : Nat) : view wc.leaveWait k = view wc k := by
+  simp [view, oldLookup, leaveWait_res, leaveWait_old]
+
+theorem leaveWait_oldLookup (wc : WC) (k : Nat) : oldLookup wc.leaveWait k = oldLookup wc k := by
+  simp [oldLookup, leaveWait_old]
+
+/-- The sweep: everything still in `oldResources` is deleted downstream, the rest is kept. -/
+theorem sweep_ok {m0 : View} {st0 : Nat} {wc : WC} (h : Inv m0 st0 wc) (hs : wc.status ≠ stWait) :
+    Inv m0 st0 wc.sweep ∧ wc.sweep.old = none ∧ wc.sweep.res = wc.res ∧ wc.sweep.status = wc.status ∧
+      wc.sweep.procMode = wc.procMode := by
+  have e : downFrom m0 wc.out = view wc := funext h.mirror
+  -- generic: a state with the same res/status, old = nil, and out extended by the deletions of `ks`
+  have key : ∀ (w2 : WC) (ks : List Nat), w2.res = wc.res → w2.old = none → w2.status = wc.status →
+      w2.out = wc.out ++ (if ks.isEmpty then [] else [Res.updates (ks.map delUpd)]) →
+      (∀ k, k ∈ ks ↔ oldLookup wc k ≠ none) → Inv m0 st0 w2 := by
+    intro w2 ks hr ho hst hout hks
+    have hdown : ∀ k, downFrom m0 w2.out k = if k ∈ ks then none else view wc k := by
       intro k
       rw [hout]
       by_cases he : ks.isEmpty = true
@@ -90,10 +83,10 @@ theorem finishResync_ok {m0 : View} {st0 : Nat} {wc : WC} (h : Inv m0 st0 wc) :
       rw [hdown]
       simp only [view, oldLookup, ho, hr, Option.bind_none]
       by_cases hk : k ∈ ks
-      · have := h1.disj k ((hks k).mp hk)
+      · have := h.disj k ((hks k).mp hk)
         simp [hk, this]
-      · have : oldLookup w1 k = none := by
-          by_cases c : oldLookup w1 k = none
+      · have : oldLookup wc k = none := by
+          by_cases c : oldLookup wc k = none
           · exact c
           · exact absurd ((hks k).mpr c) hk
         simp only [hk, if_false]
@@ -101,82 +94,68 @@ theorem finishResync_ok {m0 : View} {st0 : Nat} {wc : WC} (h : Inv m0 st0 wc) :
         rw [this]
     · rw [hout, hst]
       by_cases he : ks.isEmpty = true
-      · simp [he]; exact h1.track
-      · simp only [he, if_false, Bool.false_eq_true]; rw [lastStatus_snoc]; exact h1.track
+      · simp only [he, if_true, List.append_nil]; exact h.track
+      · simp only [he, if_false, Bool.false_eq_true]; rw [lastStatus_snoc]; exact h.track
     · rw [hout]
       by_cases he : ks.isEmpty = true
-      · simp [he]; exact h1.quiet
+      · simp only [he, if_true, List.append_nil]; exact h.quiet
       · simp only [he, if_false, Bool.false_eq_true]
-        rw [quietFrom_snoc, h1.quiet, h1.track]
-        simp [hs1]
-  -- instantiate with the model's state
-  have hfin : ∀ (w2 : WC), Inv m0 st0 w2 → w2.old = none → w2.res = w1.res → w2.procMode = w1.procMode →
-      w2.rev = w1.rev → FinishOK m0 st0 wc (w2.send (.status stInSync)) := by
-    intro w2 hi ho hr hp hrv
-    refine ⟨hi.send_status _, by rw [send_old']; exact ho, send_status' _ _, ?_, by rw [send_procMode, hp, p1], ?_⟩
-    · intro k
-      have : view (w2.send (.status stInSync)) k = lookup w1.res k := by
-        simp only [view, oldLookup, send_res, send_old', ho, hr, Option.bind_none]
-        cases lookup w1.res k <;> rfl
-      rw [this, ← hol, ← hvw]
-      by_cases c : oldLookup w1 k = none
-      · simp only [c, ne_eq, not_true_eq_false, if_false, view]
-        simp only [oldLookup] at c
-        simp only [oldLookup, c]
-        cases lookup w1.res k <;> rfl
-      · simp only [c, ne_eq, not_false_eq_true, if_true]
-        exact h1.disj k c
-    · simp only [WC.send]; split
-      · rw [hrv, rv1]
-      · show w2.rev = wc.rev; rw [hrv, rv1]
-  unfold WC.finishResync
-  simp only
-  cases ho1 : w1.old with
+        rw [quietFrom_snoc, h.quiet, h.track]
+        simp [hs]
+  unfold WC.sweep
+  cases ho : wc.old with
   | none =>
     simp only
-    apply hfin { w1 with old := none }
-    · apply key _ rfl rfl rfl
-      refine ⟨[], by simp, ?_⟩
-      intro k; simp [oldLookup, ho1]
-    · rfl
-    · rfl
-    · rfl
-    · rfl
+    refine ⟨key _ [] rfl rfl rfl (by simp) ?_, by trivial, by trivial, by trivial, by trivial⟩
+    intro k; simp [oldLookup, ho]
   | some o =>
     simp only
     by_cases hoe : o.isEmpty = true
     · simp only [hoe, if_true]
-      apply hfin { w1 with old := none }
-      · apply key _ rfl rfl rfl
-        refine ⟨[], by simp, ?_⟩
-        intro k
-        have : o = [] := by simpa using hoe
-        simp [oldLookup, ho1, this, lookup]
-      · rfl
-      · rfl
-      · rfl
-      · rfl
+      refine ⟨key _ [] rfl rfl rfl (by simp) ?_, by trivial, by trivial, by trivial, by trivial⟩
+      intro k
+      have : o = [] := by simpa using hoe
+      simp [oldLookup, ho, this, lookup]
     · simp only [hoe, if_false, Bool.false_eq_true]
-      apply hfin { w1.send (.updates ((sortKeys (keysOf o)).map delUpd)) with old := none }
-      · apply key _ rfl rfl rfl
-        refine ⟨sortKeys (keysOf o), ?_, ?_⟩
-        · have hne : (sortKeys (keysOf o)).isEmpty = false := by
-            cases o with
-            | nil => simp at hoe
-            | cons p ps =>
-              have : p.1 ∈ sortKeys (keysOf (p :: ps)) := (mem_sortKeys _ _).mpr (by simp [keysOf])
-              cases hsk : sortKeys (keysOf (p :: ps)) with
-              | nil => rw [hsk] at this; cases this
-              | cons _ _ => rfl
-          simp only [hne, Bool.false_eq_true, if_false]
-          rfl
-        · intro k
-          rw [mem_sortKeys, mem_keysOf]
-          simp [oldLookup, ho1]
-      · rfl
-      · rfl
-      · rfl
-      · rfl
+      refine ⟨key _ (sortKeys (keysOf o)) rfl rfl rfl ?_ ?_, by trivial, by trivial, by trivial, by trivial⟩
+      · have hne : (sortKeys (keysOf o)).isEmpty = false := by
+          cases o with
+          | nil => simp at hoe
+          | cons p ps =>
+            have : p.1 ∈ sortKeys (keysOf (p :: ps)) := (mem_sortKeys _ _).mpr (by simp [keysOf])
+            cases hsk : sortKeys (keysOf (p :: ps)) with
+            | nil => rw [hsk] at this; cases this
+            | cons _ _ => rfl
+        simp only [hne, Bool.false_eq_true, if_false]
+        rfl
+      · intro k
+        rw [mem_sortKeys, mem_keysOf]
+        simp [oldLookup, ho]
+
+structure FinishOK (m0 : View) (st0 : Nat) (wc w : WC) : Prop where
+  inv : Inv m0 st0 w
+  idle : w.old = none
+  status : w.status = stInSync
+  /-- everything still in `oldResources` is swept (deleted), the rest is kept -/
+  view : ∀ k, view w k = if oldLookup wc k ≠ none then none else view wc k
+  mode : w.procMode = wc.procMode
+
+theorem finishResync_ok {m0 : View} {st0 : Nat} {wc : WC} (h : Inv m0 st0 wc) :
+    FinishOK m0 st0 wc wc.finishResync := by
+  have h1 := leaveWait_good h
+  obtain ⟨i2, o2, r2, _, p2⟩ := sweep_ok h1 (leaveWait_status wc)
+  unfold WC.finishResync
+  refine ⟨i2.send_status _, by rw [send_old']; exact o2, send_status' _ _, ?_, by rw [send_procMode, p2, leaveWait_mode]⟩
+  intro k
+  have : view (wc.leaveWait.sweep.send (.status stInSync)) k = lookup wc.res k := by
+    simp only [view, oldLookup, send_res, send_old', o2, r2, leaveWait_res, Option.bind_none]
+    cases lookup wc.res k <;> rfl
+  rw [this]
+  by_cases c : oldLookup wc k = none
+  · simp only [c, ne_eq, not_true_eq_false, if_false, view]
+    cases lookup wc.res k <;> rfl
+  · simp only [c, ne_eq, not_false_eq_true, if_true]
+    exact h.disj k c
 
 /-! ### sendDeletionsForAllResources -/
 
@@ -225,62 +204,56 @@ theorem quietFrom_delResults (st : Nat) (ks : List Nat) (h : st ≠ stWait ∨ k
       exact ⟨h, ih (Or.inl h)⟩
     · cases h
 
+theorem leaveWaitIfAny_ok {m0 : View} {st0 : Nat} {wc : WC} (h : Good m0 st0 wc) :
+    Good m0 st0 wc.leaveWaitIfAny ∧ wc.leaveWaitIfAny.res = wc.res ∧
+      (wc.leaveWaitIfAny.status ≠ stWait ∨ wc.res = []) := by
+  unfold WC.leaveWaitIfAny
+  split
+  · exact ⟨h.send_status _, send_res _ _, Or.inl (by rw [send_status']; decide)⟩
+  · rename_i hc
+    refine ⟨h, rfl, ?_⟩
+    simp only [Bool.and_eq_true, Bool.not_eq_true', decide_eq_true_eq, not_and] at hc
+    by_cases he : wc.res.isEmpty = true
+    · right; simpa using he
+    · left; exact hc (by simpa using he)
+
 theorem sendDeletionsForAll_ok {m0 : View} {st0 : Nat} {wc : WC} (h : Good m0 st0 wc) :
     Good m0 st0 wc.sendDeletionsForAll ∧ wc.sendDeletionsForAll.res = [] ∧ wc.sendDeletionsForAll.rev = 0 := by
-  have h1 : Good m0 st0 (if (!wc.res.isEmpty && decide (wc.status = stWait)) = true then wc.send (.status stResync) else wc) := by
-    split
-    · exact h.send_status _
-    · exact h
-  have hs1 : (if (!wc.res.isEmpty && decide (wc.status = stWait)) = true then wc.send (.status stResync) else wc).status ≠ stWait
-      ∨ sortKeys (keysOf wc.res) = [] := by
-    split
-    · left; rw [send_status']; decide
-    · rename_i hc
-      simp only [Bool.and_eq_true, Bool.not_eq_true', decide_eq_true_eq, not_and] at hc
-      by_cases he : wc.res.isEmpty = true
-      · right
-        have : wc.res = [] := by simpa using he
-        simp [this, keysOf, sortKeys]
-      · left; exact hc (by simpa using he)
-  have r1 : (if (!wc.res.isEmpty && decide (wc.status = stWait)) = true then wc.send (.status stResync) else wc).res = wc.res := by
-    split
-    · exact send_res _ _
-    · rfl
+  obtain ⟨h1, r1, hs1⟩ := leaveWaitIfAny_ok h
   unfold WC.sendDeletionsForAll
-  simp only
-  generalize (if (!wc.res.isEmpty && decide (wc.status = stWait)) = true then wc.send (.status stResync) else wc) = w1
-    at h1 hs1 r1
-  rw [← r1]
+  generalize wc.leaveWaitIfAny = w1 at h1 r1 hs1
   obtain ⟨f1, f2, f3, f4⟩ := sendDels_fields (sortKeys (keysOf w1.res)) w1
-  simp only at f1 f2 f3 f4
+  have e : downFrom m0 w1.out = view w1 := funext h1.inv.mirror
+  have hq : w1.status ≠ stWait ∨ sortKeys (keysOf w1.res) = [] := by
+    rcases hs1 with hs | hs
+    · exact Or.inl hs
+    · right; rw [r1, hs]; rfl
   refine ⟨⟨⟨?_, ?_, ?_, ?_⟩, ?_⟩, rfl, rfl⟩
-  · intro k hk
-    rfl
+  · intro k _; rfl
   · intro k
-    show downFrom m0 (List.foldl _ w1 _).out k = _
-    rw [f1, downFrom_append, downFrom_delResults]
-    have e : downFrom m0 w1.out = view w1 := funext h1.inv.mirror
-    rw [e, h1.view_eq]
-    simp only [view, oldLookup, lookup, List.find?_nil, Option.map_none]
-    rw [f3, h1.idle]
+    show downFrom m0 w1.sendDels.out k = view w1.sendDels.clearAll k
+    have hv : view w1.sendDels.clearAll k = none := by
+      simp only [view, oldLookup, WC.clearAll, lookup, List.find?_nil, Option.map_none]
+      show (w1.sendDels.old.bind fun o => _) = none
+      have : w1.sendDels.old = none := by unfold WC.sendDels; rw [f3]; exact h1.idle
+      rw [this]; rfl
+    rw [hv]
+    unfold WC.sendDels
+    rw [f1, downFrom_append, downFrom_delResults, e, h1.view_eq]
     by_cases hk : k ∈ sortKeys (keysOf w1.res)
     · simp [hk]
-    · have : lookup w1.res k = none := by
-        by_cases c : lookup w1.res k = none
-        · exact c
-        · exact absurd ((mem_sortKeys _ _).mpr ((mem_keysOf _ _).mpr c)) hk
-      simp only [hk, if_false]
-      simp only [lookup] at this
-      simp [this]
-  · show lastStatus st0 (List.foldl _ w1 _).out = (List.foldl _ w1 _).status
+    · simp only [hk, if_false]
+      by_cases c : lookup w1.res k = none
+      · exact c
+      · exact absurd ((mem_sortKeys _ _).mpr ((mem_keysOf _ _).mpr c)) hk
+  · show lastStatus st0 w1.sendDels.out = w1.sendDels.status
+    unfold WC.sendDels
     rw [f1, f2, lastStatus_append, lastStatus_delResults]; exact h1.inv.track
-  · show quietFrom st0 (List.foldl _ w1 _).out = true
-    rw [f1, quietFrom_append, h1.inv.quiet, h1.inv.track]
-    rcases hs1 with hs | hs
-    · simp [quietFrom_delResults _ _ (Or.inl hs)]
-    · rw [← r1] at hs ⊢
-      simp [hs, delResults, quietFrom]
-  · show (List.foldl _ w1 _).old = none
+  · show quietFrom st0 w1.sendDels.out = true
+    unfold WC.sendDels
+    rw [f1, quietFrom_append, h1.inv.quiet, h1.inv.track, quietFrom_delResults _ _ hq]; rfl
+  · show w1.sendDels.old = none
+    unfold WC.sendDels
     rw [f3]; exact h1.idle
 
 /-! ### a successful List -/
@@ -294,40 +267,34 @@ structure ListOK (m0 : View) (st0 : Nat) (wc w : WC) (kvs : List KV) : Prop wher
 
 theorem processList_ok {m0 : View} {st0 : Nat} {wc : WC} (h : Good m0 st0 wc) (kvs : List KV) :
     ListOK m0 st0 wc (wc.processList kvs) kvs := by
+  have h0 : Good m0 st0 wc.listSucceeded := h.of_eq rfl rfl rfl rfl
+  have h1 : Inv m0 st0 wc.listSucceeded.leaveWait := leaveWait_good h0.inv
+  have hs1 := leaveWait_status wc.listSucceeded
+  have o1 : wc.listSucceeded.leaveWait.old = none := by rw [leaveWait_old]; exact h0.idle
+  have pm1 : wc.listSucceeded.leaveWait.procMode = wc.procMode := by rw [leaveWait_mode]; rfl
   unfold WC.processList
-  simp only
-  have h0 : Good m0 st0 { wc with connected := true, crdInstalled := true } := h.of_eq rfl rfl rfl rfl
-  generalize hw0 : ({ wc with connected := true, crdInstalled := true } : WC) = w0 at h0
-  have pm0 : w0.procMode = wc.procMode := by rw [← hw0]
-  have h1 : Good m0 st0 (if w0.status = stWait then w0.send (.status stResync) else w0) := by
-    split
-    · exact h0.send_status _
-    · exact h0
-  have hs1 := send_status_ne_wait w0
-  have pm1 : (if w0.status = stWait then w0.send (.status stResync) else w0).procMode = wc.procMode := by
-    split
-    · rw [send_procMode]; exact pm0
-    · exact pm0
-  generalize (if w0.status = stWait then w0.send (.status stResync) else w0) = w1 at h1 hs1 pm1
+  generalize wc.listSucceeded.leaveWait = w1 at h1 hs1 o1 pm1
+  have g1 : Good m0 st0 w1 := ⟨h1, o1⟩
   -- move everything to oldResources
-  have h2 : Inv m0 st0 { w1 with old := some w1.res, res := [] } := by
-    refine ⟨?_, ?_, h1.inv.track, h1.inv.quiet⟩
+  have h2 : Inv m0 st0 w1.startSweep := by
+    refine ⟨?_, ?_, h1.track, h1.quiet⟩
     · intro k _; rfl
     · intro k
       show downFrom m0 w1.out k = _
-      rw [h1.inv.mirror, h1.view_eq]
-      simp [view, oldLookup, lookup]
-  have s := foldl_handleWatchListEvent_ok kvs h2 hs1
+      rw [h1.mirror, g1.view_eq]
+      simp [view, oldLookup, lookup, WC.startSweep]
+  have hs2 : w1.startSweep.status ≠ stWait := hs1
+  have s := foldl_handleWatchListEvent_ok kvs h2 hs2
   have f := finishResync_ok s.inv
-  simp only at s f
-  rw [pm1] at s
-  refine ⟨⟨f.inv, f.idle⟩, f.status, ?_, by rw [f.mode, s.mode]; exact pm1⟩
+  have pm2 : w1.startSweep.procMode = wc.procMode := pm1
+  rw [pm2] at s
+  refine ⟨⟨f.inv, f.idle⟩, f.status, ?_, by rw [f.mode, s.mode]; exact pm2⟩
   intro k
   rw [f.view, s.old, s.view]
-  have ol2 : oldLookup { w1 with old := some w1.res, res := [] } k = lookup w1.res k := by
-    simp [oldLookup]
-  have vw2 : ∀ k, view { w1 with old := some w1.res, res := [] } k = lookup w1.res k := by
-    intro k; simp [view, oldLookup, lookup]
+  have ol2 : oldLookup w1.startSweep k = lookup w1.res k := by
+    simp [oldLookup, WC.startSweep]
+  have vw2 : ∀ k, view w1.startSweep k = lookup w1.res k := by
+    intro k; simp [view, oldLookup, lookup, WC.startSweep]
   rw [ol2]
   cases hm : mentions (kvs.flatMap (convert wc.procMode)) k with
   | true =>
